@@ -233,6 +233,51 @@ def c12_e(ctx: Ctx):
     return out
 
 
+@rule("C12-g")
+def c12_g(ctx: Ctx):
+    """(1) signac's collections do not bring their own file writer: a `_save_to_resource` override that stages the data under a fixed name (`<file>~`) makes two
+    processes that initialise the same job share the temporary - the second rename fails with ENOENT and the clean-up of save() deletes the winner's file; the
+    dependency's writer uses a unique temporary. (2) Reading a document does not write: the document accessors construct the collection and nothing else
+    (a 'create the empty file on first access' step is a check-then-write that replaces what another process wrote in between by {})."""
+    R = "C12-g"
+    out = []
+    n = 0
+    for ci in ctx.prog.classes.values():
+        if ci.module.is_dep or not ci.module.name.startswith("signac"):
+            continue
+        ov = ci.methods.get("_save_to_resource")
+        if ov is None:
+            continue
+        n += 1
+        k = ov.qual + "|own-writer"
+        opens = [e for e in ctx.effects.transitive([ov])[0] if e.kind in ("open-write", "unknown-open")]
+        unique = any(isinstance(c, ast.Call) and any(x in canon(c.func) for x in ("uuid", "mkstemp", "NamedTemporaryFile", "getpid", "token_hex"))
+                     for g in ctx.calls.closure([ov]).values() if not g.module.is_dep for c in body_nodes(g))
+        if opens and not unique:
+            e = opens[0]
+            out.append(ctx.viol(R, e.fi, e.node, f"{ci.name} overrides _save_to_resource with its own writer that stages the data in {canon(e.target)[:40] if e.target is not None else 'a file'} "
+                                "built from the target name alone: concurrent writers of the same file (two processes initialising one job) share the temporary, one rename fails with ENOENT "
+                                "and the error path of save() removes the other writer's complete file", construct=k))
+        elif opens:
+            out.append(ctx.ok(R, ov, ov.node, "own writer stages under a unique temporary name", construct=k))
+        else:
+            out.append(ctx.inc(R, ov, ov.node, f"{ci.name} overrides _save_to_resource", construct=k))
+    if not n:
+        out.append(ctx.ok(R, None, None, "no signac collection class overrides the dependency's file writer (_save_to_resource)", construct="own-writer|none", nontrivial=False))
+    for q in ("signac.job:Job.document", "signac.project:Project.document"):
+        f = ctx.fn(q)
+        k = q + "|accessor-does-not-write"
+        bad = [c for c in body_nodes(f) if isinstance(c, ast.Call) and isinstance(c.func, ast.Attribute) and c.func.attr in ("_save", "save", "reset", "update", "clear", "setdefault", "pop")
+               and "_document" in canon(common.inline_at(ctx, f, c.func.value, c))]
+        bad += [e.node for e in ctx.effects.direct(f) if e.kind in ("open-write", "write", "rename", "delete")]
+        if bad:
+            out.append(ctx.viol(R, f, bad[0], f"the document accessor writes (`{canon(bad[0])[:40]}`): a process that only reads job.doc can replace a document another process has completed "
+                                "in the meantime (existence test, then write) - no error, the data is silently gone", construct=k))
+        else:
+            out.append(ctx.ok(R, f, f.node, "the document accessor constructs the collection and writes nothing", construct=k))
+    return out
+
+
 EXC_ERRNOS = {"FileExistsError": {"EEXIST"}, "PermissionError": {"EACCES", "EPERM"}, "FileNotFoundError": {"ENOENT"}, "IsADirectoryError": {"EISDIR"},
               "NotADirectoryError": {"ENOTDIR"}}
 
@@ -346,4 +391,4 @@ def c12_f(ctx: Ctx):
     return out
 
 
-RULES = [c12_a, c12_b, c12_c, c12_d, c12_e, c12_f]
+RULES = [c12_a, c12_b, c12_c, c12_d, c12_e, c12_f, c12_g]
